@@ -770,6 +770,26 @@ def merge_rules(ctx, b, selfkind):
         ws = [w for w in writes(b) if w["root"] == 1]
         for fld in ("count", "sum", "bucket_counts"):
             fw = [w for w in ws if has_field(w["fields"], fld)]
+            if not fw and fld == "bucket_counts":
+                # `for (target, other) in self.bucket_counts.iter().zip(&other.bucket_counts)`: the target reference comes out of the
+                # zipped iterator; positions agree by construction when both sides are the full, forward, unfiltered sequences
+                zok = False
+                zw = []
+                for w in writes(b):
+                    if not b.in_loop(w["bb"]) or not w["term"]["args"]:
+                        continue
+                    tsl = Slice(b).run(w["term"]["args"][0])
+                    vsl = Slice(b).run(w["val"])
+                    tn = set(call_names(tsl)) | set(call_names(vsl))
+                    cut = tn & {"rev", "skip", "take", "step_by", "filter", "skip_while", "take_while", "chain", "filter_map", "map_while", "nth"}
+                    if "zip" in tn and {1, 2} <= (tsl["args"] | vsl["args"]) and any(f.endswith("::bucket_counts") for f in tsl["fields"]) and \
+                            any(f.endswith("::bucket_counts") for f in vsl["fields"]) and not cut:
+                        zw.append(w)
+                if zw:
+                    zok = all(w["op"] == "fetch_add" and not Slice(b).run(w["val"])["binops"] for w in zw) and len(zw) == 1
+                    ctx.ob("R4.merge-additive", f"{tag}.{fld}", zok, where,
+                           f"ops on the zipped (self.bucket_counts, other.bucket_counts) pairs: {[w['op'] for w in zw]}; both sides full forward sequences")
+                    continue
             ok = bool(fw) and all(w["op"] == "fetch_add" for w in fw)
             det = [f"ops on self.{fld}: {[w['op'] for w in fw]}"]
             for w in fw:
